@@ -205,6 +205,33 @@ theorem tnuc_on_grid (hc : VChain p kCN k vs) (h0 : Fresh (nth vs 0)) (m : Nat) 
       obtain ⟨k', hk', e⟩ := ih (by omega) τ (this ▸ h)
       exact ⟨k', by omega, e⟩
 
+/-- **a nucleation record never moves backwards** (no trajectory hypothesis): once `t_nucleation = a`
+is recorded, every later state records some `b ≥ a` (a vial that melted completely and nucleated
+again would carry the LATER time). -/
+theorem tnuc_mono (hc : VChain p kCN k vs) (h0 : Fresh (nth vs 0)) (hdt : 0 ≤ p.dt) (j m : Nat) (hjm : j ≤ m)
+    (hm : m < vs.length) (a : ℝ) (ha : (nth vs j).tNuc = some a) :
+    ∃ b, (nth vs m).tNuc = some b ∧ a ≤ b := by
+  induction m with
+  | zero =>
+    have : j = 0 := by omega
+    subst this; exact ⟨a, ha, le_refl _⟩
+  | succ m ih =>
+    rcases Nat.eq_or_lt_of_le hjm with h | h
+    · subst h; exact ⟨a, ha, le_refl _⟩
+    · obtain ⟨b, hb, hab⟩ := ih (by omega) (by omega)
+      have st := chain_step hc m hm
+      by_cases hl : (nth vs m).sigma = 0
+      · rcases vstep_liquid st hl with ⟨q, _, _, ht, _⟩ | ⟨_, h2, _⟩
+        · refine ⟨_, ht, ?_⟩
+          obtain ⟨k', hk', e⟩ := tnuc_on_grid hc h0 m (by omega) b hb
+          have : b ≤ timeAt p.dt (k + m) := by
+            rw [e]; simp only [timeAt, ofNat'_real]
+            have : ((k + k' + 1 : ℕ) : ℝ) ≤ ((k + m : ℕ) : ℝ) := by exact_mod_cast (by omega : k + k' + 1 ≤ k + m)
+            exact mul_le_mul_of_nonneg_right this hdt
+          linarith
+        · exact ⟨b, by rw [h2]; exact hb, hab⟩
+      · exact ⟨b, by rw [(vstep_solid st hl).1]; exact hb, hab⟩
+
 /-- every recorded nucleation temperature is supercooled -/
 theorem Tnuc_lt (hc : VChain p kCN k vs) (h0 : Fresh (nth vs 0)) (m : Nat) (hm : m < vs.length)
     (T : ℝ) (h : (nth vs m).TNuc = some T) : T < p.c.T_eq_l := by
